@@ -296,6 +296,14 @@ func c11Judge(c *Ctx, v lexVariant, g *lexGram, gp, twin *GenParser, inputs []le
 	} else {
 		c.Count("rule-level reference: compared")
 	}
+	// the rules alone: own regular-expression reading, own case folding, derivative matcher
+	rx, rxErr := buildRxLexer(g)
+	if rxErr != nil {
+		rx = nil
+		c.Count("text-level oracle: pattern outside its subset")
+	} else {
+		c.Count("text-level oracle: compared")
+	}
 	for i, in := range inputs {
 		seq, ok := parseSeq(outs[i])
 		desc := fmt.Sprintf("grammar:\n%s\nstate=%d input=%q", gp.TM, in.State, in.Text)
@@ -305,6 +313,32 @@ func c11Judge(c *Ctx, v lexVariant, g *lexGram, gp, twin *GenParser, inputs []le
 		}
 		if msg := checkPositions(in.Text, untilEOI(seq), o.TokenLine, o.TokenColumn, v.ColFix); msg != "" {
 			c.Violate("token position: "+msg, desc)
+		}
+		if rx != nil {
+			if want, wok := rx.tokenize(in.State, in.Text, len(in.Text)+3); wok {
+				got := untilEOI(seq)
+				same := len(got) == len(want)
+				var gs []string
+				for k, t := range got {
+					name := "?"
+					if t.Tok >= 0 && t.Tok < len(gp.G.Syms) {
+						name = gp.G.Syms[t.Tok].Name
+					}
+					gs = append(gs, fmt.Sprintf("%s[%d,%d)", name, t.S, t.E))
+					if same && (want[k].Name != name || want[k].S != t.S || want[k].E != t.E) {
+						same = false
+					}
+				}
+				if !same {
+					var ws []string
+					for _, t := range want {
+						ws = append(ws, fmt.Sprintf("%s[%d,%d)", t.Name, t.S, t.E))
+					}
+					c.Violate(fmt.Sprintf("generated lexer returns %s; the text of the rules (longest match of the patterns read by the harness's own matcher, own case folding, priorities, keyword over class rule) specifies %s", strings.Join(gs, " "), strings.Join(ws, " ")), desc)
+				}
+			} else {
+				c.Count("text-level oracle: input with tied rules skipped")
+			}
 		}
 		if ref != nil {
 			want := ref.tokenize(in.State, in.Text, len(in.Text)+3)
